@@ -212,7 +212,10 @@ def _parse(out, err, res):
             _, k, v = line.split(" ", 2)
             res.digests[k] = v
         elif line.startswith("SAMPLE "):
-            res.samples.append(line[7:])
+            try:
+                res.samples.append(json.loads(line[7:]))
+            except ValueError:
+                res.samples.append(line[7:])
         elif line.startswith("SITE "):
             res.sites.add(line.split()[1])
         elif line.startswith("DONE "):
